@@ -133,6 +133,30 @@ func (s *Store) Kinds() []*KindInfo {
 	return out
 }
 
+func stamp(m map[string]any, gvk schema.GroupVersionKind) map[string]any {
+	if m != nil {
+		m["apiVersion"] = gvk.GroupVersion().String()
+	}
+	return m
+}
+
+// storageFor resolves a (served) request version to the kind's storage
+// version: objects are persisted - and their managed fields tracked - in the
+// storage version whichever served version a request used (conversion
+// strategy None: only apiVersion differs).
+func (s *Store) storageFor(gvk schema.GroupVersionKind) (*KindInfo, *VersionInfo, schema.GroupVersionKind, error) {
+	ki, vi, err := s.kindFor(gvk)
+	if err != nil {
+		return nil, nil, gvk, err
+	}
+	if ki.Storage != "" && ki.Storage != gvk.Version {
+		if svi := ki.Versions[ki.Storage]; svi != nil {
+			return ki, svi, ki.GK.WithVersion(ki.Storage), nil
+		}
+	}
+	return ki, vi, gvk, nil
+}
+
 func (s *Store) kindFor(gvk schema.GroupVersionKind) (*KindInfo, *VersionInfo, error) {
 	ki := s.kinds[gvk.GroupKind()]
 	if ki == nil {
@@ -631,7 +655,8 @@ func (s *Store) crdTerminating(ki *KindInfo) bool {
 
 // Create creates an object.
 func (s *Store) Create(c Caller, gvk schema.GroupVersionKind, m map[string]any, o WriteOpts) (map[string]any, error) {
-	ki, vi, err := s.kindFor(gvk)
+	reqGVK := gvk
+	ki, vi, gvk, err := s.storageFor(gvk)
 	if err != nil {
 		return nil, err
 	}
@@ -678,7 +703,7 @@ func (s *Store) Create(c Caller, gvk schema.GroupVersionKind, m map[string]any, 
 		s.EstablishCRD(name)
 		out, _ = s.Get(gvk, "", name)
 	}
-	return out, err
+	return stamp(out, reqGVK), err
 }
 
 func (s *Store) prepareCRD(m map[string]any) {
@@ -722,7 +747,8 @@ func (s *Store) EstablishCRD(name string) {
 
 // Update replaces an object (or its status).
 func (s *Store) Update(c Caller, gvk schema.GroupVersionKind, m map[string]any, status bool, o WriteOpts) (map[string]any, error) {
-	ki, vi, err := s.kindFor(gvk)
+	reqGVK := gvk
+	ki, vi, gvk, err := s.storageFor(gvk)
 	if err != nil {
 		return nil, err
 	}
@@ -752,12 +778,14 @@ func (s *Store) Update(c Caller, gvk schema.GroupVersionKind, m map[string]any, 
 		s.logEntry(c, verb, k, o.DryRun, old, old, false, false, err)
 		return nil, err
 	}
-	return s.finish(c, verb, ki, vi, gvk, k, old, m, status && ki.HasStatus, o, false)
+	out, err := s.finish(c, verb, ki, vi, gvk, k, old, m, status && ki.HasStatus, o, false)
+	return stamp(out, reqGVK), err
 }
 
 // Patch applies a merge, JSON or apply patch.
 func (s *Store) Patch(c Caller, gvk schema.GroupVersionKind, ns, name string, pt types.PatchType, data []byte, status bool, o WriteOpts) (map[string]any, error) {
-	ki, vi, err := s.kindFor(gvk)
+	reqGVK := gvk
+	ki, vi, gvk, err := s.storageFor(gvk)
 	if err != nil {
 		return nil, err
 	}
@@ -899,12 +927,14 @@ func (s *Store) Patch(c Caller, gvk schema.GroupVersionKind, ns, name string, pt
 	default:
 		return fail(kerrors.NewBadRequest("unsupported patch type " + string(pt)))
 	}
-	return s.finish(c, verb, ki, vi, gvk, k, old, nm, status && ki.HasStatus, o, fmDone)
+	out, err := s.finish(c, verb, ki, vi, gvk, k, old, nm, status && ki.HasStatus, o, fmDone)
+	return stamp(out, reqGVK), err
 }
 
 // Delete deletes (or marks for deletion) an object.
 func (s *Store) Delete(c Caller, gvk schema.GroupVersionKind, ns, name string, o WriteOpts) error {
-	ki, vi, err := s.kindFor(gvk)
+	reqGVK := gvk
+	ki, vi, gvk, err := s.storageFor(gvk)
 	if err != nil {
 		return err
 	}
@@ -930,7 +960,7 @@ func (s *Store) Delete(c Caller, gvk schema.GroupVersionKind, ns, name string, o
 		return fail(kerrors.NewConflict(ki.Resource(), name, fmt.Errorf("Precondition failed: ResourceVersion in precondition: %v, ResourceVersion in object meta: %v", *o.PreconditionRV, ou.GetResourceVersion())))
 	}
 	if c.Actor != "gc" && c.Actor != "apiserver" {
-		if err := s.admit(&AdmissionRequest{Operation: "DELETE", GVK: gvk, Key: k, Old: runtime.DeepCopyJSON(old), Caller: c, DryRun: o.DryRun, Options: o}); err != nil {
+		if err := s.admit(&AdmissionRequest{Operation: "DELETE", GVK: reqGVK, Key: k, Old: runtime.DeepCopyJSON(old), Caller: c, DryRun: o.DryRun, Options: o}); err != nil {
 			return fail(err)
 		}
 		// an admission plugin may have written to the object: re-read.
